@@ -7,7 +7,7 @@ Definition d_cls (s : sexp) : cls :=
 Definition d_kv (s : sexp) : str * Z := (d_str (d_nth s 0), d_Z (d_nth s 1)).
 
 (* operations: (0 k v) set, (1 k) get, (2 k) del, (3 k) contains, (4 k opt) get-with-default,
-   (5 k opt) pop, (6) popitem, (7 k d) setdefault, (8 pairs) update, (9) clear, (10) lower *)
+   (5 k opt) pop, (6) popitem, (7 k d) setdefault, (8 pairs) update, (9) clear, (10) lower, (11 k x) mutate the object c[k] returns: append digit x *)
 Definition d_op (s : sexp) : op str Z :=
   let k := d_str (d_nth s 1) in
   match d_Z (d_nth s 0) with
@@ -21,7 +21,8 @@ Definition d_op (s : sexp) : op str Z :=
   | 7%Z => OSetdefault k (d_Z (d_nth s 2))
   | 8%Z => OUpdate (d_list d_kv (d_nth s 1))
   | 9%Z => OClear
-  | _ => OLower
+  | 10%Z => OLower
+  | _ => OMutate k (mut_append (d_Z (d_nth s 2)))
   end.
 
 Definition d_tbl (s : sexp) : list (str * str) := d_list (fun p => (d_str (d_nth p 0), d_str (d_nth p 1))) s.
